@@ -659,11 +659,64 @@ class _Walker(FlowWalker):
         elif isinstance(f, ast.Name):
             name = f.id
             if f.id in env.names and env.names[f.id]:
+                cands = self.registry_functions(env.names[f.id])
+                if cands:
+                    # an element of a module-level registry of package functions (dispatch table): any registered function may be the callee
+                    out = set()
+                    base_heap = dict(env.heap)
+                    heaps = []
+                    for fn in cands:
+                        env.heap = dict(base_heap)
+                        benv = self.bind(fn, None, node, env, ctx)
+                        out |= self.invoke(fn, benv, node, env)
+                        heaps.append(env.heap)
+                    merged = {}
+                    for h in heaps:
+                        for k, v in h.items():
+                            merged[k] = merged.get(k, EMPTY) | v
+                    env.heap = merged
+                    return frozenset(out)
                 out = set(env.names[f.id])
                 for a in args:
                     out |= a
                 return frozenset(o.child("()") if o.kind != "fresh" else o for o in out)
         return self.lib_result(node, name or norm(f), env, ctx)
+
+    def registry_functions(self, objs):
+        """objs all stem from ONE module-level object of the package: the package functions that object can hold - those named in its
+        defining expression, in top-level statements that mention it, and the top-level functions of its module that carry a decorator
+        defined in the package (registering decorators)."""
+        labels = {o.label for o in objs if o.kind == "global"}
+        if len(labels) != 1 or any(o.kind != "global" for o in objs):
+            return []
+        label = next(iter(labels))
+        if "::" not in label:
+            return []
+        rel, name = label.split("::", 1)
+        try:
+            mod = self.tree.module(rel)
+        except Exception:
+            return []
+        out = []
+
+        def add(n):
+            if isinstance(n, ast.Name):
+                r = self.tree.resolve_name(mod, n.id)
+                if isinstance(r, FuncInfo) and r not in out:
+                    out.append(r)
+        for st in mod.tree.body:
+            if isinstance(st, (ast.FunctionDef, ast.ClassDef)):
+                for d in st.decorator_list:
+                    fn = d.func if isinstance(d, ast.Call) else d
+                    if isinstance(fn, ast.Name) and isinstance(self.tree.resolve_name(mod, fn.id), FuncInfo) and isinstance(st, ast.FunctionDef):
+                        r = self.tree.resolve_name(mod, st.name)
+                        if isinstance(r, FuncInfo) and r not in out:
+                            out.append(r)
+                continue
+            if any(isinstance(n, ast.Name) and n.id == name for n in ast.walk(st)):
+                for n in ast.walk(st):
+                    add(n)
+        return out
 
     def is_module_expr(self, node):
         if isinstance(node, ast.Name) and node.id == "self":
@@ -711,7 +764,8 @@ class _Walker(FlowWalker):
             first = args[idx] if len(args) > idx else EMPTY
             return frozenset([o]) | first
         if name == "getattr" and args:
-            return self.an.contents(args[0], env) | args[0]
+            # an attribute of the object (any of them: the name is not known), never the object itself
+            return self.an.contents(args[0], env)
         return frozenset([o])
 
     def method_call(self, node, mname, recv, env, ctx):
